@@ -42,6 +42,37 @@ func sendDir[T any](ch chan<- T, v T) {
 	postSend()
 }
 
+// AtomicOff switches the pre-emption point in front of atomic operations off (replay files of
+// format 1 and 2).
+var AtomicOff bool
+
+// Pre is a pre-emption point in front of an operation of sync/atomic: v.Load() is rewritten to
+// simrt.Pre(v.Load)(). Protocols built on atomic flags and counters (check, then act) are only
+// explored if another task can run between two atomic operations of one task. Half of the runs
+// have it (the schedule tape decides at the first atomic operation).
+func Pre[F any](f F) F {
+	s := S
+	if AtomicOff || s == nil {
+		return f
+	}
+	t := s.cur
+	if t == nil || s.killed || t.noPre > 0 || s.PreemptDen < 2 {
+		return f
+	}
+	if !s.atomInit {
+		s.atomInit = true
+		s.atomOn = s.Tape.Choose(2) == 1
+	}
+	if !s.atomOn || s.Tape.Choose(s.PreemptDen) != 1 {
+		return f
+	}
+	s.Preemptions++
+	s.AtomicYields++
+	s.release(t, stInOp)
+	s.acquire(t)
+	return f
+}
+
 // PostSendOff switches the pre-emption point behind a completed send off (replay files written
 // before it existed: format 1).
 var PostSendOff bool
